@@ -80,7 +80,6 @@ def register_positions(reg):
             "written": "forall(lambda e: implies(%s, positions[IDOF(e)][old(id_ranking)] == ranking.positions[e] - 1))" % (HASP % "e"),
             "frame": "forall(lambda a, c: implies(c != old(id_ranking) or not exists(lambda e: %s and IDOF(e) == a), "
                      "positions[a][c] == old(positions)[a][c]))" % (HASP % "e"),
-            "next_column": "id_ranking == old(id_ranking) + 1",
         },
         loops={
             2: dict(snap={"col": "id_ranking"}, inv={
